@@ -610,6 +610,90 @@ def inram_stage(c):
         break
 
 
+def metadata_api_stage(c):
+  """The Metadata class itself (common.py): random sequences of ns()/abs_ns() views, item writes and
+  deletes, update(), attach() between three objects, and reads (get, keys, namespaces, subnamespaces) on
+  the REAL class vs Model/MetadataApi.lean.  Views are reached the way users reach them: a chain of
+  ns() steps from the root, or abs_ns()."""
+  import shim
+  shim.install()
+  from vizier._src.pyvizier.shared import common
+  comps = ['', 'a', 'b', 'a:b', 'é', 'x\\']
+  keys = ['k', 'j', '']
+  vals = ['v', 'w', '', 'z']
+  n = 60 if c.tier == 'quick' else 600
+  reqs, reals, seqs = [], [], []
+
+  def rnd_ns(rng):
+    return [rng.choice(comps) for _ in range(rng.choice([0, 0, 1, 1, 2, 3]))]
+
+  def view(md, ns, how):
+    if how == 'abs':
+      return md.abs_ns(common.Namespace(ns))
+    v = md.abs_ns()          # the root, then one ns() step per component
+    for comp in ns:
+      v = v.ns(comp)
+    return v
+  for i in range(n):
+    rng = c.rng
+    mds = [common.Metadata(), common.Metadata(), common.Metadata()]
+    ops, outs = [], []
+    for _ in range(rng.randrange(4, 30)):
+      m = rng.randrange(3)
+      x = rng.random()
+      ns = rnd_ns(rng)
+      how = rng.choice(['abs', 'chain'])
+      try:
+        if x < 0.35:
+          k, v = rng.choice(keys), rng.choice(vals)
+          view(mds[m], ns, how)[k] = v
+          ops.append({'op': 'set', 'm': m, 'ns': ns, 'k': k, 'v': v}); outs.append('ok')
+        elif x < 0.42:
+          k = rng.choice(keys)
+          ops.append({'op': 'del', 'm': m, 'ns': ns, 'k': k})
+          try:
+            del view(mds[m], ns, how)[k]
+            outs.append('ok')
+          except KeyError:
+            outs.append('KeyError')
+        elif x < 0.52:
+          kvs = [[rng.choice(keys), rng.choice(vals)] for _ in range(rng.randrange(0, 3))]
+          view(mds[m], ns, how).update(kvs)
+          ops.append({'op': 'update', 'm': m, 'ns': ns, 'kvs': kvs}); outs.append('ok')
+        elif x < 0.62:
+          other = (m + rng.choice([1, 2])) % 3
+          src = rnd_ns(rng)
+          view(mds[m], ns, how).attach(view(mds[other], src, rng.choice(['abs', 'chain'])))
+          ops.append({'op': 'attach', 'm': m, 'ns': ns, 'other': other, 'src': src}); outs.append('ok')
+        elif x < 0.77:
+          k = rng.choice(keys)
+          ops.append({'op': 'get', 'm': m, 'ns': ns, 'k': k}); outs.append(view(mds[m], ns, how).get(k))
+        elif x < 0.87:
+          ops.append({'op': 'keys', 'm': m, 'ns': ns}); outs.append(sorted(view(mds[m], ns, how).keys()))
+        elif x < 0.94:
+          ops.append({'op': 'namespaces', 'm': m}); outs.append(sorted(list(x2) for x2 in mds[m].namespaces()))
+        else:
+          ops.append({'op': 'subnamespaces', 'm': m, 'ns': ns}); outs.append(sorted(list(x2) for x2 in view(mds[m], ns, how).subnamespaces()))
+      except Exception as e:  # pylint: disable=broad-except
+        outs.append('EXC:' + type(e).__name__)
+    c.traces += 1
+    kinds = set(o['op'] for o in ops)
+    c.count(len(ops), ('mdapi', i) if ('attach' in kinds or 'del' in kinds) else None, kind='metadata-api-sequence')
+    reqs.append({'op': 'mdapi', 'ops': ops}); reals.append(outs); seqs.append(ops)
+  for ops, outs, m in zip(seqs, reals, c.lean('C10', reqs)):
+    if 'error' in m:
+      raise core.InfraError('driver: ' + str(m))
+    for i, (o, a, b) in enumerate(zip(ops, outs, m['outs'])):
+      if o['op'] in ('keys', 'namespaces', 'subnamespaces') and isinstance(b, list):
+        b = sorted(b)
+      if a != b:
+        # the model is the last-writer-wins tree the property describes: a disagreement is a failing input
+        c.prop_fail('metadata-class-api:' + o['op'],
+                    'Metadata class: after %d calls, %s answers %s where the last-writer-wins tree keyed by (namespace, key) gives %s' % (
+                        i, json.dumps(o), json.dumps(a)[:120], json.dumps(b)[:120]), {'ops': ops[:i + 1], 'real': a, 'model': b})
+        break
+
+
 CONC_PAIRS = [('mdTrial1', 'complete1'), ('mdTrial1', 'measure1'), ('mdTrial1', 'stop1'), ('mdTrial1', 'suggestMd'),
               ('mdStudy', 'setInactive'), ('mdStudy', 'suggestMd'), ('mdBoth', 'complete1inf'), ('mdBoth', 'earlyStop1'),
               ('mdTrial1', 'mdBoth')]
@@ -705,6 +789,7 @@ def run(c):
   codec_stage(c)
   merge_stage(c)
   store_stage(c)
+  metadata_api_stage(c)
   policy_stage(c)
   inram_stage(c)
   concurrent_stage(c)
